@@ -121,14 +121,17 @@ def judge_l0(case):
 def judge_l1(case):
     mix = U.get_mixture(case["mixture"])
     t, x, model, P = case["T"], case["x"], case["model"], case["P"]
+    PREC = case.get("precision", globals()["PREC"])
+    TWIN_TOL = case.get("tol", globals()["TWIN_TOL"])
     mode = tuple(case["mode"]) if case["mode"] != "vac" else "vac"
     kw = U.permeate_kwargs(mode, t)
     a, b = pv_pair(mix, P, t)
     state = {"n": 0}
 
     def run_pair():
-        ca = U.Composition(p=x, type="weight")
-        cb = U.Composition(p=1 - x, type="weight")
+        basis = case.get("basis", "weight")
+        ca = U.composition(x, basis, mix)
+        cb = U.composition(1 - x, basis, U.swap_mixture(mix))
         sa, ja = core.call(a.calculate_partial_fluxes, feed_temperature=t, composition=ca, precision=PREC, calculation_type=model, **kw)
         sb, jb = core.call(b.calculate_partial_fluxes, feed_temperature=t, composition=cb, precision=PREC, calculation_type=model, **kw)
         if sa != "ok" or sb != "ok":
@@ -241,8 +244,7 @@ def judge_l2b(case):
     base = [(3.1e-2 * (1 + 0.4 * i), 4.7e-4 * (1 + 0.7 * i)) for i in range(len(xs))]
 
     def perm(v, unit, comp):
-        p = U.Permeance(value=v, units=U.Units.kg_m2_h_kPa)
-        return p if unit == U.Units.kg_m2_h_kPa else p.convert(to_units=unit, component=comp)
+        return U.exact_permeance(v, unit, comp.molecular_weight)
 
     pa = [(perm(b[0], units[0], mix.first_component), perm(b[1], units[1], mix.second_component)) for b in base]
     pb = [(perm(b[1], units[1], sw.first_component), perm(b[0], units[0], sw.second_component)) for b in base]
@@ -364,7 +366,13 @@ def main(tier, seed):
                                                          "x": xs + [1 - z for z in xs[:2]]}, ok), judge_l0)
     modes = ["vac", ("T", -60.0), ("T", -20.0), ("p", 0.5), ("p", 5.0)] if q else ["vac", ("T", 120.0), ("T", -60.0), ("T", -20.0), ("p", 0.0), ("p", 0.5), ("p", 5.0)]
     Ps = [(1e-2, 1e-4), (1e-4, 1e-2)] if q else [(1e-2, 1e-4), (1e-3, 1e-3), (1e-4, 1e-2), (1.0, 1e-6)]
-    core.run_space(rep, core.Space("L1_solver", {"mixture": mixes, "model": ["NRTL", "UNIQUAC"], "mode": modes, "P": Ps, "T": ts[:2] if q else ts, "x": xs}, ok), judge_l1)
+    core.run_space(rep, core.Space("L1_solver", {"mixture": mixes, "model": ["NRTL", "UNIQUAC"], "mode": modes + [("p", 0.004), ("p", 0.02)], "P": Ps + [(1e-4, 1.0)],
+                                                 "T": ts[:2] if q else ts, "x": xs + [0.003, 0.997], "basis": ["weight", "molar"]}, ok), judge_l1)
+    # the library's default precision with a tiny permeate pressure: the solver's own inexactness is then negligible (the
+    # permeate term is < 1e-4 of the driving force), so twins must still agree to 1e-4
+    core.run_space(rep, core.Space("L1c_default_precision_tiny_pressure", {"mixture": [m for m in mixes if U.get_mixture(m).nrtl_params is not None] + (["H2O_iPOH"] if "H2O_iPOH" not in mixes else []),
+                                                                          "model": ["NRTL"], "mode": [("p", 0.002), ("p", 0.01)], "P": [(1e-4, 1.0), (1.0, 1e-4), (1e-2, 1e-2)],
+                                                                          "T": ts[:2], "x": [0.003, 0.03, 0.97, 0.997], "precision": [5e-5, 3e-4], "tol": [1e-4]}), judge_l1)
     core.run_space(rep, core.Space("L1b_one_permeance_supplied", {"mixture": [m for m in mixes if U.get_mixture(m).nrtl_params is not None], "model": ["NRTL"],
                                                                  "mode": modes[:3], "P": Ps[:1], "T": ts[:1], "x": xs[1:4], "which": [0, 1], "override": [3.3e-2, 7.7e-5]}), judge_l1b)
     core.run_space(rep, core.Space("L2_curves", {"mixture": mixes, "model": ["NRTL", "UNIQUAC"], "mode": modes, "P": Ps, "T": ts[:2] if q else ts[1:6],
@@ -382,7 +390,7 @@ def main(tier, seed):
 
 
 def replay(body):
-    fn = {"L0_thermodynamics": judge_l0, "L1_solver": judge_l1, "L1b_one_permeance_supplied": judge_l1b, "L2_curves": judge_l2, "L2b_curves_from_permeances": judge_l2b, "L3_ideal_traces": judge_l3}[body["space"]]
+    fn = {"L0_thermodynamics": judge_l0, "L1_solver": judge_l1, "L1c_default_precision_tiny_pressure": judge_l1, "L1b_one_permeance_supplied": judge_l1b, "L2_curves": judge_l2, "L2b_curves_from_permeances": judge_l2b, "L3_ideal_traces": judge_l3}[body["space"]]
     r = fn(body["case"])
     for v in r["viol"]:
         print("violation key=%s%s: %s" % (v["key"], " [known %s]" % v["known"] if v["known"] else "", v["msg"]))
